@@ -4,7 +4,11 @@ BufferPool.tla is model-checked (2 threads, mixed element types, capacities arou
 all interleavings); the same machine generates schedules that are replayed on a real BufferPool from
 real threads; free-running stress runs add unconstrained interleavings. In both cases the pool's own
 events (hook H4, emitted under the pool mutex) and the holders' events are validated by TLC
-(Trace_BufferPool.tla): exclusive ownership, adequate capacity and layout, freed/reused exactly once."""
+(Trace_BufferPool.tla): exclusive ownership, adequate capacity and layout, freed/reused exactly once.
+A third mode runs without the event sink (which serialises the threads): free-running rounds of
+alloc / capacity check / write pattern / verify / add on a pool pre-filled with interleaved buffers
+(Trace_PoolRace.tla); BufferPoolSplit.tla shows at design level why search and removal must be one
+critical section (Atomic = FALSE: TLC finds the stale-index interleaving)."""
 import vlib
 
 
@@ -25,6 +29,19 @@ def run(ctx):
     t3 = ctx.path("pool_stress8.ndjson")
     ctx.harness("vh-graph", ["pool-stress", "--out", t3, "--cases", 60 if ctx.quick else 1500, "--threads", 8, "--ops", 60],
                 env={"VERIF_SEED": str(ctx.seed + 1)})
+    # free-running contention without the sink: result-based (capacity, exclusive contents, panics)
+    t4 = ctx.path("pool_race.ndjson")
+    ctx.harness("vh-graph", ["pool-race", "--out", t4, "--cases", 8 if ctx.quick else 40, "--rounds", 150000 if ctx.quick else 1000000])
+    res = ctx.tlc_trace("pool/Trace_PoolRace", "pool/Trace_PoolRace.cfg", t4, timeout=600, ncases_key="race_case")
+    ctx.judge(res["bad"], "vh-graph pool-race", "pool/Trace_PoolRace", "pool/Trace_PoolRace.cfg")
+    ctx.cov["race_rounds"] = res["stats"].get("rounds", 0)
+    if not ctx.quick:
+        ctx.tlc_mc("pool/MC_BufferPoolSplit", "pool/MC_BufferPoolSplit.cfg", workers=6, timeout=1500,
+                   label="alloc as one critical section (Find immediately followed by Take): handed-out buffers fit, no stale index")
+        info, out = ctx.tlc_mc("pool/MC_BufferPoolSplit", "pool/MC_BufferPoolSplit_broken.cfg", workers=2, timeout=600, expect_ok=False,
+                               label="alloc split in two critical sections: TLC must find the stale-index interleaving")
+        if "is violated" not in out:
+            raise vlib.ToolError("BufferPoolSplit with Atomic = FALSE did not produce the expected counterexample")
     ctx.cov["schedules_generated_by_tlc"] = nh
     ctx.cov["schedules_replayed"] = n
     judge(ctx, [t1, t2, t3])
